@@ -301,5 +301,8 @@ theorem build_active (p : Prog) : ActiveSpec ρ p := by
       obtain ⟨w4, f4, a4, l4, w3, f3⟩ := scoped_body (t := truthy vc) (env1 := env1) ihb o1.wf oi hid ha1 h2 h3'
         (by rw [ha1.1]; exact henv1')
       exact tail env1 (truthy vc) w3 f3 w4 f4 a4 l4 (by rw [g1]; simp) hr
+  | istmt s k _ =>
+    intro B B' env env' ch h hr hw ha hact hch
+    simp [build] at h
 
 end Gatery.C05
